@@ -99,7 +99,7 @@ type Result struct {
 }
 
 // check runs one self-contained query (inside push/pop).
-func (s *Solver) check(body string, getValues []string) Result {
+func (s *Solver) check(body string, getValues []string, cancel <-chan struct{}) Result {
 	t0 := time.Now()
 	var sb strings.Builder
 	sb.WriteString("(push 1)\n")
@@ -141,6 +141,9 @@ func (s *Solver) check(body string, getValues []string) Result {
 		case <-deadline:
 			s.kill()
 			return Result{Status: "timeout", Solver: s.kind.name, Raw: strings.Join(pre, "\n"), Secs: time.Since(t0).Seconds()}
+		case <-cancel:
+			s.kill()
+			return Result{Status: "cancelled", Solver: s.kind.name, Secs: time.Since(t0).Seconds()}
 		}
 	}
 }
@@ -347,6 +350,10 @@ func (p *Pool) record(r Result) {
 	}
 	st.Queries++
 	st.Secs += r.Secs
+	if r.Status == "cancelled" {
+		p.mu.Unlock()
+		return
+	}
 	switch r.Status {
 	case "unsat":
 		st.Unsat++
@@ -360,14 +367,20 @@ func (p *Pool) record(r Result) {
 
 // RunOn runs body on one solver kind.
 func (p *Pool) RunOn(kind string, tmo int, body string, getValues []string) Result {
-	p.sem <- struct{}{}
-	defer func() { <-p.sem }()
+	return p.RunOnC(kind, tmo, body, getValues, nil, true)
+}
+
+func (p *Pool) RunOnC(kind string, tmo int, body string, getValues []string, cancel <-chan struct{}, useSem bool) Result {
+	if useSem {
+		p.sem <- struct{}{}
+		defer func() { <-p.sem }()
+	}
 	atomic.AddInt64(&p.queries, 1)
 	s := p.get(kind, tmo)
 	if s == nil {
 		return Result{Status: "error", Solver: kind, Raw: "cannot start solver"}
 	}
-	r := s.check(body, getValues)
+	r := s.check(body, getValues, cancel)
 	if r.Status == "error" && !s.dead {
 		// keep the session only if it still answers; simplest is to restart
 		s.kill()
@@ -377,27 +390,40 @@ func (p *Pool) RunOn(kind string, tmo int, body string, getValues []string) Resu
 	return r
 }
 
-// Decide tries the solvers in order until one gives a definite answer.
+// Decide: z3-new with the quick timeout first; if that is not conclusive, z3-new, z3 and cvc5
+// are raced with the slow timeout and the first definite answer wins.
 func (p *Pool) Decide(body string, getValues []string, quickMs, slowMs int) Result {
 	r := p.RunOn("z3-new", quickMs, body, getValues)
 	if r.Status == "unsat" || r.Status == "sat" {
 		return r
 	}
 	first := r
-	for _, k := range []string{"z3", "cvc5"} {
-		r = p.RunOn(k, slowMs, body, getValues)
-		if r.Status == "unsat" || r.Status == "sat" {
-			return r
+	kinds := []string{"cvc5", "z3", "z3-new"}
+	cancel := make(chan struct{})
+	results := make(chan Result, len(kinds))
+	p.sem <- struct{}{}
+	for _, k := range kinds {
+		k := k
+		go func() { results <- p.RunOnC(k, slowMs, body, getValues, cancel, false) }()
+	}
+	var best Result
+	got := false
+	for i := 0; i < len(kinds); i++ {
+		r := <-results
+		if !got && (r.Status == "unsat" || r.Status == "sat") {
+			best, got = r, true
+			close(cancel)
 		}
 	}
-	r = p.RunOn("z3-new", slowMs, body, getValues)
-	if r.Status == "unsat" || r.Status == "sat" {
-		return r
+	<-p.sem
+	if got {
+		return best
 	}
 	if first.Status == "error" {
 		return first
 	}
-	return r
+	first.Status = "unknown"
+	return first
 }
 
 // Confirm re-checks an unsat answer on a second solver (thorough tier).
